@@ -521,6 +521,17 @@ func (d *driver) conclude(nshards int) int {
 	if a.Evals == 0 {
 		a.Incon = append(a.Incon, "no evaluations observed")
 	}
+	{ // de-duplicate reasons reported by several shards
+		seen := map[string]bool{}
+		var u []string
+		for _, r := range a.Incon {
+			if !seen[r] {
+				seen[r] = true
+				u = append(u, r)
+			}
+		}
+		a.Incon = u
+	}
 	if p.Floor != nil && len(a.Incon) == 0 {
 		if r := p.Floor(a); r != "" {
 			a.Incon = append(a.Incon, "observation floor: "+r)
